@@ -667,7 +667,14 @@ func (x *Explorer) Run() {
 	// root parameters: receiver / args of unknown provenance
 	for _, p := range fn.Params {
 		f := Fact{}
-		if named(p.Type()) == x.P.A.Object && types.IsInterface(p.Type()) {
+		pt := p.Type()
+		if sl, ok := pt.Underlying().(*types.Slice); ok {
+			pt = sl.Elem()
+		}
+		if ch, ok := pt.Underlying().(*types.Chan); ok {
+			pt = ch.Elem()
+		}
+		if named(pt) == x.P.A.Object && types.IsInterface(pt) {
 			f.Tags |= TParamObj
 		}
 		st.define(p, f)
